@@ -548,7 +548,7 @@ def correspondence(ctx, verdict, pr):
             continue
         seen[sig] = 1
         verdict.oracle_failure(sig, 'C09 oracle [%s]: %s (case %s: %s, %d-byte stream, segmentation %s, target script %s, end=%s)' % (
-            sig, msg, c['id'], c['meta']['cat'], n, c['meta']['seg'], c['meta']['script'], c['end']),
+            sig, msg, c['id'], c['meta']['cat'], n // 2, c['meta']['seg'], c['meta']['script'], c['end']),
             dict(case=c, state=states[c['st']], implementation=o, model=model.get(c['id']),
                  how='python3 tools/check.py C09 --replay <this file>'))
     if mism:
